@@ -179,3 +179,64 @@ package wire
 //@   loop 7 invariant [C05] len(ec.errors) == 0 ==> ownsAllArgs(srcMap, set) && ownsImps(srcMap, set.Imports, len(set.Imports)) && ownsProvs(srcMap, set.Providers, len(set.Providers)) && ownsVals(srcMap, set.Values, len(set.Values)) && ownsFields(srcMap, set.Fields, done6) && ownsFOuts(srcMap, f, done)
 //@   loop 8 invariant mapsOK(providerMap, srcMap) && ec != nil
 //@   loop 8 invariant [C05] len(ec.errors) == 0 ==> ownsAllArgs(srcMap, set) && ownsImps(srcMap, set.Imports, len(set.Imports)) && ownsProvs(srcMap, set.Providers, len(set.Providers)) && ownsVals(srcMap, set.Values, len(set.Values)) && ownsFields(srcMap, set.Fields, len(set.Fields)) && ownsBinds(srcMap, set.Bindings, done)
+
+// ---------------------------------------------------------------------------
+// wire.go: emission (the event trace of g.buf is the ghost sequence OUTEV[&g.buf][0..OUTLEN[&g.buf]))
+// ---------------------------------------------------------------------------
+
+//@ func (*gen).p
+//@   modifies OUTLEN[&g.buf], OUTEV[&g.buf]
+//@   ensures OUTLEN[&g.buf] == old(OUTLEN[&g.buf]) + 1
+//@   ensures OUTEV[&g.buf] == old(OUTEV[&g.buf])[old(OUTLEN[&g.buf]) := evs(format, args)]
+
+//@ func (*injectorGen).p
+//@   modifies OUTLEN[&ig.g.buf], OUTEV[&ig.g.buf]
+//@   ensures ig.discard ==> OUTLEN[&ig.g.buf] == old(OUTLEN[&ig.g.buf]) && OUTEV[&ig.g.buf] == old(OUTEV[&ig.g.buf])
+//@   ensures !ig.discard ==> OUTLEN[&ig.g.buf] == old(OUTLEN[&ig.g.buf]) + 1 && OUTEV[&ig.g.buf] == old(OUTEV[&ig.g.buf])[old(OUTLEN[&ig.g.buf]) := evs(format, args)]
+
+//@ func (*gen).qualifyImport
+//@   modifies mapof(g.imports)
+//@ func (*gen).qualifiedID
+//@   modifies mapof(g.imports)
+//@ func (*gen).qualifyPkg
+//@   modifies mapof(g.imports)
+//@ func (*gen).nameInFileScope
+//@   modifies nothing
+//@ func (*injectorGen).nameInInjector
+//@   modifies nothing
+//@ func disambiguate
+//@   modifies nothing
+//@ func typeVariableName
+//@   modifies nothing
+//@ func zeroValue
+//@   callsback qf
+
+// slots: argument indices of a call refer to parameters and to earlier locals
+//@ define argsInRange(ig *injectorGen, c *call) = forall j :: 0 <= j && j < len(c.args) ==> 0 <= c.args[j] && c.args[j] < len(ig.paramNames) + len(ig.localNames)
+
+//@ func (*injectorGen).funcProviderCall
+//@   requires c.pkg != nil && injectSig.out != nil && argsInRange(ig, c)
+//@   modifies ig.cleanupNames, OUTLEN[&ig.g.buf], OUTEV[&ig.g.buf], mapof(ig.g.imports)
+//@   ensures [C03,C04] c.hasCleanup ==> len(ig.cleanupNames) == len(old(ig.cleanupNames)) + 1 && (forall j :: 0 <= j && j < len(old(ig.cleanupNames)) ==> ig.cleanupNames[j] == old(ig.cleanupNames)[j])
+//@   ensures [C03,C04] !c.hasCleanup ==> ig.cleanupNames == old(ig.cleanupNames)
+//@   ensures [C03] ig.discard ==> OUTLEN[&ig.g.buf] == old(OUTLEN[&ig.g.buf])
+//@   ensures [C03] !ig.discard && c.hasErr ==> OUTLEN[&ig.g.buf] >= old(OUTLEN[&ig.g.buf]) + 4 + len(old(ig.cleanupNames))
+//@   ensures [C03] !ig.discard && c.hasErr ==> OUTEV[&ig.g.buf][OUTLEN[&ig.g.buf] - 1] == ev("\t}\n")
+//@   ensures [C03] !ig.discard && c.hasErr ==> OUTEV[&ig.g.buf][OUTLEN[&ig.g.buf] - 2] == ev(", %s\n", ig.errVar)
+//@   ensures [C03] !ig.discard && c.hasErr && injectSig.cleanup ==> OUTEV[&ig.g.buf][OUTLEN[&ig.g.buf] - 3] == ev(", nil")
+//@   ensures [C03] !ig.discard && c.hasErr ==> evfmt(OUTEV[&ig.g.buf][OUTLEN[&ig.g.buf] - 3 - (injectSig.cleanup ? 1 : 0)]) == "\t\treturn %s"
+//@   ensures [C03] !ig.discard && c.hasErr ==> forall j :: 0 <= j && j < len(old(ig.cleanupNames)) ==> OUTEV[&ig.g.buf][OUTLEN[&ig.g.buf] - 4 - (injectSig.cleanup ? 1 : 0) - j] == ev("\t\t%s()\n", old(ig.cleanupNames)[j])
+//@   ensures [C03] !ig.discard && c.hasErr ==> OUTEV[&ig.g.buf][OUTLEN[&ig.g.buf] - 4 - (injectSig.cleanup ? 1 : 0) - len(old(ig.cleanupNames))] == ev("\tif %s != nil {\n", ig.errVar)
+//@   ensures [C03] !c.hasErr ==> forall k :: old(OUTLEN[&ig.g.buf]) <= k && k < OUTLEN[&ig.g.buf] ==> evfmt(OUTEV[&ig.g.buf][k]) != "\tif %s != nil {\n" && evfmt(OUTEV[&ig.g.buf][k]) != "\t\t%s()\n" && evfmt(OUTEV[&ig.g.buf][k]) != "\t\treturn %s"
+//@   loop 1 invariant [C03] ig.discard ==> OUTLEN[&ig.g.buf] == old(OUTLEN[&ig.g.buf])
+//@   loop 1 invariant [C03] forall k :: old(OUTLEN[&ig.g.buf]) <= k && k < OUTLEN[&ig.g.buf] ==> evfmt(OUTEV[&ig.g.buf][k]) != "\tif %s != nil {\n" && evfmt(OUTEV[&ig.g.buf][k]) != "\t\t%s()\n" && evfmt(OUTEV[&ig.g.buf][k]) != "\t\treturn %s"
+//@   loop 1 invariant [C03,C04] c.hasCleanup ==> len(ig.cleanupNames) == len(old(ig.cleanupNames)) + 1 && (forall j :: 0 <= j && j < len(old(ig.cleanupNames)) ==> ig.cleanupNames[j] == old(ig.cleanupNames)[j])
+//@   loop 1 invariant [C03,C04] !c.hasCleanup ==> ig.cleanupNames == old(ig.cleanupNames)
+//@   loop 1 invariant OUTLEN[&ig.g.buf] >= old(OUTLEN[&ig.g.buf])
+//@   loop 2 invariant [C03] ig.discard ==> OUTLEN[&ig.g.buf] == old(OUTLEN[&ig.g.buf])
+//@   loop 2 invariant [C03,C04] c.hasCleanup ==> len(ig.cleanupNames) == len(old(ig.cleanupNames)) + 1 && (forall j :: 0 <= j && j < len(old(ig.cleanupNames)) ==> ig.cleanupNames[j] == old(ig.cleanupNames)[j])
+//@   loop 2 invariant [C03,C04] !c.hasCleanup ==> ig.cleanupNames == old(ig.cleanupNames)
+//@   loop 2 invariant i < prevCleanup && prevCleanup == len(old(ig.cleanupNames))
+//@   loop 2 invariant [C03] !ig.discard ==> OUTLEN[&ig.g.buf] >= old(OUTLEN[&ig.g.buf]) + 1 + (prevCleanup - 1 - i)
+//@   loop 2 invariant [C03] !ig.discard ==> OUTEV[&ig.g.buf][OUTLEN[&ig.g.buf] - (prevCleanup - i)] == ev("\tif %s != nil {\n", ig.errVar)
+//@   loop 2 invariant [C03] !ig.discard ==> forall j :: i < j && j < prevCleanup ==> OUTEV[&ig.g.buf][OUTLEN[&ig.g.buf] - (j - i)] == ev("\t\t%s()\n", old(ig.cleanupNames)[j])
